@@ -98,7 +98,8 @@ type interpreter struct {
 	intr       map[*ssa.Function]externalFn
 	initStores map[*ssa.Global]bool // globals stored during the running init
 	depth      int
-	clock      int64 // fake monotone clock (ns)
+	clock      int64  // fake monotone clock (ns)
+	panicSite  string // where the innermost frame was when the current panic started
 }
 
 type deferred struct {
@@ -120,6 +121,7 @@ type frame struct {
 	panicking        bool
 	panic            interface{}
 	phitemps         []value // temporaries for parallel phi assignment
+	cur              ssa.Instruction
 }
 
 func (fr *frame) get(key ssa.Value) value {
@@ -622,6 +624,12 @@ func runFrame(fr *frame) {
 			return // let interpreter crash
 		}
 		r := recover()
+		if fr.i.panicSite == "" && fr.cur != nil {
+			fr.i.panicSite = fr.fn.String() + " @ " + fr.i.prog.Fset.Position(fr.cur.Pos()).String()
+			for c, n := fr.caller, 0; c != nil && n < 8; c, n = c.caller, n+1 {
+				fr.i.panicSite += " <- " + c.fn.String()
+			}
+		}
 		if isEngineControl(r) {
 			panic(r)
 		}
@@ -654,6 +662,7 @@ func runFrame(fr *frame) {
 					fmt.Fprintln(os.Stderr, "\t", instr)
 				}
 			}
+			fr.cur = instr
 			if visitInstr(fr, instr) == kReturn {
 				return
 			}
